@@ -172,7 +172,14 @@ func C09(c *core.Ctx) {
 				}
 				k, isC := scopeConst(in.Val)
 				if !isC {
-					c.Viol("R9.3", key, c.Pos(in), "scope stored from a non-constant value")
+					// computed by a helper of the repository (scopeOfRemote(uri)) or chosen
+					// by a phi: the same rule as for the argument of makeTransportBase
+					switch core.Strip(in.Val).(type) {
+					case *ssa.Call, *ssa.Phi:
+						checkScopeArg(c, fn, in, in.Val, key, isLoop, localOnly)
+					default:
+						c.Viol("R9.3", key, c.Pos(in), "scope stored from a non-constant value")
+					}
 					return
 				}
 				key = fmt.Sprintf("%s:=%d", key, k)
